@@ -531,9 +531,8 @@ def ctor_initial_state(d, inst, fn, W):
     return CLEAN, "no base initialiser (defaulted)"
 
 
-def rule_canon(rep, inst, shift_flows):
+def rule_canon(rep, inst, shift_flows, R="C03.canon"):
     d, W = inst.d, inst.W
-    R = "C03.canon"
     for cname, kind, fn in inst.fns:
         if cname not in CLASSES:
             continue
@@ -1083,9 +1082,8 @@ def rule_empty(rep, inst):
 
 # ---------------------------------------------------------------------------------------------------------------------
 # C03.blocks - block count agrees with ceil(size / W) wherever both are set
-def rule_blocks(rep, inst):
+def rule_blocks(rep, inst, R="C03.blocks"):
     d = inst.d
-    R = "C03.blocks"
 
     def is_cbc(t, size_t):
         """t == compute_block_count(size_t) or integer_ceil(size_t, W)"""
@@ -1177,40 +1175,82 @@ def rule_blocks(rep, inst):
             cl = [n for n in ir.walk_expr(fn) if n.get("kind") == "CXXMemberCallExpr" and ir.sx(n) == ("call", ("mem", ("mem", ("this",), "m_buffer"), "clear"))]
             (rep.holds if cl else rep.violates)(R, lab, "size 0 with cleared buffer", where=d.where(sn), **({} if cl else {"detail": "m_size = 0 without m_buffer.clear()"}))
             continue
-        # the count the buffer is brought to: the operand compared with the old count in the guard of resize()/pop_back()
-        guards = []
+        # path-wise: the block count at exit must equal ceil(new size / W).  Symbols: old = block count at entry (= ceil(old size / W) by the
+        # invariant), new = the local holding compute_block_count(<new size>).
+        newvars = set()
         for n in ir.walk_expr(fn):
-            if n.get("kind") == "IfStmt":
-                raw = [c for c in n.get("inner", []) if isinstance(c, dict) and c.get("kind")]
-                c = ir.sx(raw[0])
-                body_calls = [ir.sx(x) for x in ir.walk_expr(raw[1]) if x.get("kind") == "CXXMemberCallExpr"]
-                bc = [b for b in body_calls if b[0] == "call" and b[1][0] == "mem" and b[1][1] == ("mem", ("this",), "m_buffer") and b[1][2] in ("resize", "pop_back")]
-                if bc and c[0] == "bin" and c[1] == "!=":
-                    guards.append((n, subst(c[2]), subst(c[3]), bc[0]))
-        if len(guards) != 1:
-            rep.inconclusive(R, lab, "size/block agreement", where=d.where(fn), detail="expected one `if (new_count != old_count) m_buffer.resize/pop_back` guard, found %d" % len(guards))
+            if n.get("kind") == "VarDecl" and n.get("id") in linit and is_cbc(subst(ir.sx(linit[n.get("id")])), size):
+                newvars.add(n.get("name"))
+        oldvars = set()
+        for n in ir.walk_expr(fn):
+            if n.get("kind") == "VarDecl" and n.get("id") in linit and subst(ir.sx(linit[n.get("id")])) in (
+                    ("call", ("mem", ("this",), "block_count")), ("call", ("mem", ("mem", ("this",), "m_buffer"), "size"))):
+                oldvars.add(n.get("name"))
+        if not newvars:
+            rep.violates(R, lab, "block count = ceil(size / W)", where=d.where(sn),
+                         detail="m_size becomes `%s` but no block count is computed as compute_block_count of that size" % ir.show(size))
             continue
-        g, a, b, call = guards[0]
-        old = (("call", ("mem", ("this",), "block_count")), ("call", ("mem", ("mem", ("this",), "m_buffer"), "size")))
-        new = a if b in old else b if a in old else None
-        if new is None:
-            rep.inconclusive(R, lab, "size/block agreement", where=d.where(g), detail="guard does not compare with the current block count")
-            continue
-        ok = is_cbc(new, size)
-        if ok and call[1][2] == "resize":
-            ok = subst(call[2]) == new
-        if ok:
-            rep.holds(R, lab, "block count = ceil(size / W)", where=d.where(g), detail="new count `%s` for size `%s`" % (ir.show(new), ir.show(size)))
+
+        def symmap(t):
+            if t[0] == "ref" and t[1] in newvars:
+                return "new"
+            if t[0] == "ref" and t[1] in oldvars:
+                return "old"
+            if t in (("call", ("mem", ("this",), "block_count")), ("call", ("mem", ("mem", ("this",), "m_buffer"), "size"))):
+                return "old"
+            return None
+        shrink_by_one = size == ("bin", "-", ("mem", ("this",), "m_size"), ("lit", "1"))
+        bad = None
+        paths = flow.function_paths(fn, with_ctor_inits=False)
+        for path in paths:
+            facts = []
+            count = Lin({"old": 1})
+            neq = False
+            for st in path:
+                if st[0] == "cond":
+                    t = ir.sx(st[1])
+                    if t[0] == "bin" and t[1] in linear.NEG:
+                        op = t[1] if st[2] else linear.NEG[t[1]]
+                        a_, b_ = linear.lin(t[2], symmap), linear.lin(t[3], symmap)
+                        if a_ is not None and b_ is not None:
+                            facts += linear.atom_facts(op, a_, b_)
+                            if op == "!=" and set(a_) | set(b_) <= {"new", "old"}:
+                                neq = True
+                if st[0] == "ev" and st[1].get("kind") == "CXXMemberCallExpr":
+                    t = ir.sx(st[1])
+                    if t[0] == "call" and t[1][0] == "mem" and t[1][1] == ("mem", ("this",), "m_buffer"):
+                        if t[1][2] == "resize":
+                            c_ = linear.lin(t[2], symmap)
+                            if c_ is None:
+                                bad = (st[1], "m_buffer.resize(`%s`): not the computed block count" % ir.show(t[2]))
+                                break
+                            count = c_
+                        elif t[1][2] == "pop_back":
+                            count = count - Lin({"": 1})
+                        elif t[1][2] == "clear":
+                            count = Lin()
+            if bad:
+                break
+            if shrink_by_one:
+                facts += [Lin({"old": 1, "new": -1}), Lin({"new": 1, "old": -1, "": 1})]       # old - 1 <= new <= old
+                if neq:
+                    facts.append(Lin({"old": 1, "new": -1, "": -1}))                            # new != old and new <= old
+            goal1, goal2 = count - Lin({"new": 1}), Lin({"new": 1}) - count
+            if not (linear.entails(facts, goal1, ()) and linear.entails(facts, goal2, ())):
+                conds = "; ".join("%s is %s" % (d.text(st[1])[:40], st[2]) for st in path if st[0] == "cond" and ("block_count" in d.text(st[1]) or "count" in d.text(st[1])))
+                bad = (fn, "on the path where %s the buffer ends with `%s` blocks, which is not provably compute_block_count(%s): blocks and size fall out of step "
+                           "(stale blocks stay behind, block_count()/count()/== see them)" % (conds or "no guard holds", count.show(), ir.show(size)))
+                break
+        if bad:
+            rep.violates(R, lab, "block count = ceil(size / W)", where=d.where(bad[0]), detail=bad[1])
         else:
-            rep.violates(R, lab, "block count = ceil(size / W)", where=d.where(g),
-                         detail="the buffer is brought to `%s` blocks while m_size becomes `%s`" % (ir.show(new), ir.show(size)))
+            rep.holds(R, lab, "block count = ceil(size / W)", where=d.where(fn), detail="%d paths; new count `%s` for size `%s`" % (len(paths), sorted(newvars)[0], ir.show(size)))
 
 
 # ---------------------------------------------------------------------------------------------------------------------
 # C03.grow
-def rule_grow(rep, inst):
+def rule_grow(rep, inst, R="C03.grow"):
     d = inst.d
-    R = "C03.grow"
     for fn in inst.find("resize", "xdynamic_bitset"):
         if len(ir.params(fn)) != 2:
             continue
